@@ -99,6 +99,7 @@ struct World {
   std::map<const void*, LiveOp> live;     // tracked operation objects, by address
   std::vector<std::string> out;
   int results = 0;
+  bool ub = false;          // a running operation object was destroyed: the case is abandoned (no further events)
   void emit(std::string s) { out.push_back(std::move(s)); }
 
   void op_constructed(const void* p, int id, char kind) {
@@ -110,6 +111,7 @@ struct World {
     if (it == live.end()) { emit(std::string("!!op-destroyed-twice:") + kind); return; }
     if (it->second.running) {
       emit(std::string("!!op-destroyed-while-running:") + it->second.kind);
+      ub = true;
       // the object is gone: it can no longer be completed by the environment
       if (it->second.kind == 'n') { pendN.erase(it->second.id); }
       if (it->second.kind == 'k') { pendK.erase(it->second.id); }
@@ -533,6 +535,7 @@ static std::string flush(World& w) {
 }
 
 static bool one_event(World& w, Ctx& c, const std::string& ev) {
+  if (w.ub) return false;
   if (ev == "start") {
     if (c.kind == 'm' || c.started) { w.emit("bad"); return true; }
     c.started = true; c.do_start();
@@ -563,7 +566,7 @@ static std::string event_loop(World& w, Ctx& c, const std::string& events) {
   while (es >> ev) one(ev);
   // drain: complete whatever is pending (smallest source first, next before cleanup); then make the
   // consumer finish (start / stop for reduce and for_each; cleanup / stop for the manual driver)
-  for (int guard = 0; guard < 400; ++guard) {
+  for (int guard = 0; guard < 400 && !w.ub; ++guard) {
     int bn = w.pendN.empty() ? 1 << 30 : w.pendN.begin()->first;
     int bk = w.pendK.empty() ? 1 << 30 : w.pendK.begin()->first;
     if (bn != 1 << 30 || bk != 1 << 30) { one(bn <= bk ? "n" + S(bn) : "k" + S(bk)); continue; }
